@@ -172,9 +172,19 @@ def s15_4_version_alignment_verify(ctx, P):
     nonfw, _ = sink_functions(ctx)
     ctx.floor(P + ':S15-4:floor', 'verify-side sink sites', len(nonfw), 6)
     for b in nonfw:
-        rdom(ctx, '%s:S15-4:align:%s' % (P, b.path), b, call_blocks(b, SINK),
-             [r'call:.*check_signature_key_version_alignment$'],
-             'key/signature version alignment check dominates the primitive in %s' % b.path.split('::')[-1], rule='R-sib')
+        # the key whose version is aligned must be the key that verifies (receiver of the primitive), not e.g. the signee
+        recv = set()
+        for i, t in b.calls(SINK):
+            recv |= set(x for x in b.operand_origins(t['args'][0]) if x.startswith('param:'))
+        asites = [i for i, t in b.calls(r'check_signature_key_version_alignment$')
+                  if recv & set(x for x in b.operand_origins(t['args'][0]) if x.startswith('param:'))]
+        if b.calls(r'check_signature_key_version_alignment$') and not asites:
+            ctx.violation('%s:S15-4:align:%s' % (P, b.path), 'R-sib', 'key/signature version alignment is checked for the key that verifies in %s' % b.path.split('::')[-1],
+                          function=b.path, missing='check_signature_key_version_alignment is applied to another key than the receiver of VerifyingKey::verify (%s)' % sorted(recv))
+            continue
+        spec = r'cs:.*check_signature_key_version_alignment#(%s)$' % '|'.join(str(i) for i in asites) if asites else r'call:.*check_signature_key_version_alignment$'
+        rdom(ctx, '%s:S15-4:align:%s' % (P, b.path), b, call_blocks(b, SINK), [spec],
+             'key/signature version alignment check (of the verifying key) dominates the primitive in %s' % b.path.split('::')[-1], rule='R-sib')
     # the helper has both directional guards
     b = ctx.body(SIG + 'check_signature_key_version_alignment')
     if b is not None:
